@@ -43,6 +43,7 @@ func Strings(alpha []string, maxLen int) []string {
 		}
 		out = append(out, r)
 	})
+	sort.SliceStable(out, func(i, j int) bool { return len(out[i]) < len(out[j]) })
 	return out
 }
 
